@@ -64,6 +64,9 @@ FIELD_ALPHABET = {
 # scrypt: the library checks salt characters only up to the first '$' of the salt field and hashes the field as raw bytes;
 # a foreign character in the salt proper is refused, which the near-miss grid confirms via P_RBYTES as well
 FIELD_ALPHABET["scrypt"][P_RBYTES] = A64
+# methods whose salt field has a fixed alphabet and no inner structure: a '$' inside it is malformed (scrypt is left out: the
+# library takes its salt up to the last '$' of the string, observed and documented in DESIGN.md 8.7)
+DOLLAR_REJECT = {"yescrypt", "gost_yescrypt", "bcrypt", "bcrypt_a", "bcrypt_x", "bcrypt_y", "bsdicrypt"}
 
 
 def near_miss_cells(m, g, tier):
@@ -98,6 +101,17 @@ def near_miss_cells(m, g, tier):
                     cid = "N%s#%d@lead0" % (method, pi)
                     cells.append(K.crypt_cell(cid, entry, b"", setting_bytes=b"", headsets=k2, size=(32768, 32768), align=(0, 0)))
                     meta[cid] = {"method": method, "pattern": tuple(k2), "pos": pos[0], "field": "cost (leading zero)", "row": row, "from": src}
+                if field == P_RBYTES and method in DOLLAR_REJECT and len(allpos) >= 4:
+                    # a '$' in the middle of the salt of a fixed-alphabet method, with the field still closed by a final '$'
+                    # (without the final '$' what follows the inner one would be a hash portion, which is legitimate)
+                    k2 = list(key)
+                    k2[allpos[len(allpos) // 2]] = frozenset(b"$")
+                    while k2 and k2[-1] == frozenset(b"$"):
+                        k2.pop()
+                    k2.append(frozenset(b"$"))
+                    cid = "N%s#%d@dollar" % (method, pi)
+                    cells.append(K.crypt_cell(cid, entry, b"", setting_bytes=b"", headsets=k2, size=(32768, 32768), align=(0, 0)))
+                    meta[cid] = {"method": method, "pattern": tuple(k2), "pos": allpos[len(allpos) // 2], "field": "salt ('$' inside)", "row": row, "from": src}
                 for i in pos:
                     k2 = list(key)
                     k2[i] = frozenset(bad)
@@ -302,6 +316,8 @@ def extra_cells(m, g):
         ("sunmd5", "rounds-max", L(b"$md5,rounds=4294963199$") + S(8) + L(b"$"), [0] * 12 + [8] * 10 + [0] + [1] * 8 + [0]),
         ("sha1crypt", "rounds-max+salt64", L(b"$sha1$4294967295$") + S(64) + L(b"$"), [0] * 6 + [8] * 10 + [0] + [1] * 64 + [0]),
         ("nt", "trailing", L(b"$3$$") + S(6), [0] * 10),
+        ("sha1crypt", "cost0", L(b"$sha1$0$") + S(8), [0] * 6 + [8] + [0] + [1] * 8),
+        ("sha1crypt", "cost-empty", L(b"$sha1$$") + S(8), [0] * 7 + [1] * 8),
         # F5: the longest salts whose hash still fits the output field (a hash of 340..383 characters used as a setting)
         ("scrypt", "salt300", L(b"$7$CU..../....") + S(300), [0] * 3 + [8] * 11 + [1] * 300),
         ("scrypt", "salt325", L(b"$7$CU..../....") + S(325), [0] * 3 + [8] * 11 + [1] * 325),
